@@ -51,24 +51,33 @@ static FV check19_special(const C19Case &c) {
     // c.start 0: all privileges dropped, world-readable file of root.  1: real user nobody, effective user root (what a set-uid program is), file
     // readable by root only - the open succeeds, so the call is the string call.  2: effective user nobody, real user root, same file - the open is
     // refused, so the call reports EXIT_FAILURE
-    int credv = c.start % 3;
-    char tmpl[] = "/tmp/c19nr.XXXXXX"; char *dir = mkdtemp(tmpl); if (!dir) return v; chmod(dir, 0755); std::string fp = std::string(dir) + "/prog.asm", prog = "mov rax, 0x1122334455667788\nadd rcx, 5\nret\n"; write_file(fp, prog); chmod(fp.c_str(), credv == 0 ? 0644 : 0600);
+    int credv = c.start % 4;   // 3: as 2, with an empty file (nothing to read is no reason not to open it)
+    char tmpl[] = "/tmp/c19nr.XXXXXX"; char *dir = mkdtemp(tmpl); if (!dir) return v; chmod(dir, 0755); std::string fp = std::string(dir) + "/prog.asm", prog = credv == 3 ? "" : "mov rax, 0x1122334455667788\nadd rcx, 5\nret\n"; write_file(fp, prog); chmod(fp.c_str(), credv == 0 ? 0644 : 0600);
     fflush(nullptr); pid_t pid = fork();
-    if (pid == 0 && credv == 2) { if (seteuid(65534) != 0) _exit(77); std::vector<uint8_t> b1(4096, 0xcc); assemblyline_t a1 = asm_create_instance(b1.data(), 4096); std::vector<char> p(fp.begin(), fp.end()); p.push_back(0); int c1 = 0; if (open(p.data(), O_RDONLY) >= 0) _exit(77);
+    if (pid == 0 && credv >= 2) { if (seteuid(65534) != 0) _exit(77); std::vector<uint8_t> b1(4096, 0xcc); assemblyline_t a1 = asm_create_instance(b1.data(), 4096); std::vector<char> p(fp.begin(), fp.end()); p.push_back(0); int c1 = 0; if (open(p.data(), O_RDONLY) >= 0) _exit(77);
       int r1 = c.mode == 1 ? asm_assemble_file_counting_chunks(a1, p.data(), 16, &c1) : asm_assemble_file(a1, p.data()); _exit(r1 == EXIT_FAILURE && asm_get_offset(a1) == 0 ? 0 : 1); }
     if (pid == 0) { if (credv == 1 ? setresuid(65534, 0, 0) != 0 : (setgid(65534) != 0 || setuid(65534) != 0)) _exit(77); std::vector<uint8_t> b1(4096, 0xcc), b2(4096, 0xcc); assemblyline_t a1 = asm_create_instance(b1.data(), 4096), a2 = asm_create_instance(b2.data(), 4096); std::vector<char> p(fp.begin(), fp.end()); p.push_back(0); int c1 = 0, c2 = 0; std::vector<char> w(prog.begin(), prog.end()); w.push_back(0);
       int r1 = c.mode == 1 ? asm_assemble_file_counting_chunks(a1, p.data(), 16, &c1) : asm_assemble_file(a1, p.data()), r2 = c.mode == 1 ? asm_assemble_string_counting_chunks(a2, w.data(), 16, &c2) : asm_assemble_str(a2, prog.c_str());
       _exit(r1 == r2 && c1 == c2 && asm_get_offset(a1) == asm_get_offset(a2) && b1 == b2 ? 0 : 1); }
     int st = 0; waitpid(pid, &st, 0); unlink(fp.c_str()); rmdir(dir);
     if (WIFEXITED(st) && WEXITSTATUS(st) == 77) return v;   // privileges cannot be dropped here
-    if (!WIFEXITED(st) || WEXITSTATUS(st) != 0) return bad("other-owner", std::string(credv == 0 ? "a process without privileges reading a world-readable file of another owner" : credv == 1 ? "real user nobody, effective user root, file readable by root only (open succeeds)" : "effective user nobody, file readable by root only (open is refused): the call must return EXIT_FAILURE and leave the offset") + (credv == 2 ? "" : ": the file call differs from the string call on the same contents") + " (child status " + std::to_string(st) + ")");
+    if (!WIFEXITED(st) || WEXITSTATUS(st) != 0) return bad("other-owner", std::string(credv == 0 ? "a process without privileges reading a world-readable file of another owner" : credv == 1 ? "real user nobody, effective user root, file readable by root only (open succeeds)" : credv == 2 ? "effective user nobody, file readable by root only (open is refused): the call must return EXIT_FAILURE and leave the offset" : "effective user nobody, EMPTY file readable by root only (open is refused): the call must return EXIT_FAILURE") + (credv >= 2 ? "" : ": the file call differs from the string call on the same contents") + " (child status " + std::to_string(st) + ")");
     return v;
   }
   if (c.special == 7) { // asm_create_bin_file onto a target that takes the bytes only in part or not at all (a full device, a file size limit): success only with all bytes in the file
     size_t want = c.start % 2 ? 20000 : 100; std::vector<uint8_t> big(want + 64, 0xcc); assemblyline_t a = asm_create_instance(big.data(), (int)big.size());
     std::string prog; while (prog.size() / 4 * 1 < want) prog += "nop\n"; prog.resize(want * 4); if (asm_assemble_str(a, prog.c_str()) != 0 || (size_t)asm_get_offset(a) != want) { asm_destroy_instance(a); return bad("harness", "cannot assemble the nop program"); }
     std::string why;
-    if (c.start / 2 % 2 == 0) { if (access("/dev/full", W_OK) == 0) { char path[] = "/dev/full"; int rc = asm_create_bin_file(a, path); if (rc != EXIT_FAILURE) why = "asm_create_bin_file(\"/dev/full\") with " + std::to_string(want) + " bytes of code returned " + std::to_string(rc) + " although the device takes no byte"; } }
+    if (c.start >= 4) { // a process without privileges replaces an existing file of its own that it may write but not read (mode 0200)
+      if (geteuid() == 0) { char tmpl[] = "/tmp/c19wo.XXXXXX"; char *dir = mkdtemp(tmpl); if (dir) { chmod(dir, 0777); std::string fp = std::string(dir) + "/out.bin"; fflush(nullptr); pid_t pid = fork();
+        if (pid == 0) { if (setgid(65534) != 0 || setuid(65534) != 0) _exit(77); int fd = open(fp.c_str(), O_WRONLY | O_CREAT | O_TRUNC, 0200); if (fd < 0) _exit(77); if (write(fd, "old contents, longer than nothing", 33) != 33) _exit(77); close(fd); chmod(fp.c_str(), 0200);
+          std::vector<char> p(fp.begin(), fp.end()); p.push_back(0); int rc = asm_create_bin_file(a, p.data()); _exit(rc == EXIT_SUCCESS ? 0 : 1); }
+        int st = 0; waitpid(pid, &st, 0); std::string got; bool have = read_all(fp, got); unlink(fp.c_str()); rmdir(dir);
+        if (WIFEXITED(st) && WEXITSTATUS(st) == 77) { }
+        else if (!WIFEXITED(st) || WEXITSTATUS(st) != 0) why = "asm_create_bin_file onto an existing file the (unprivileged) caller may write but not read (mode 0200) failed (child status " + std::to_string(st) + ")";
+        else if (!have || got.size() != want || memcmp(got.data(), big.data(), want)) why = "asm_create_bin_file onto an existing write-only file returned EXIT_SUCCESS but the file holds " + std::to_string(got.size()) + " bytes that are not the code"; } }
+    }
+    else if (c.start / 2 % 2 == 0) { if (access("/dev/full", W_OK) == 0) { char path[] = "/dev/full"; int rc = asm_create_bin_file(a, path); if (rc != EXIT_FAILURE) why = "asm_create_bin_file(\"/dev/full\") with " + std::to_string(want) + " bytes of code returned " + std::to_string(rc) + " although the device takes no byte"; } }
     else {
       std::string fp = tmpdir() + "/limited.bin"; unlink(fp.c_str()); fflush(nullptr); pid_t pid = fork();
       if (pid == 0) { signal(SIGXFSZ, SIG_IGN); struct rlimit lim; lim.rlim_cur = lim.rlim_max = (rlim_t)(want / 2 - want / 2 % 16); if (setrlimit(RLIMIT_FSIZE, &lim) != 0) _exit(77); std::vector<char> p(fp.begin(), fp.end()); p.push_back(0); int rc = asm_create_bin_file(a, p.data()); _exit(rc == EXIT_SUCCESS ? 0 : rc == EXIT_FAILURE ? 1 : 2); }
@@ -208,8 +217,8 @@ void prop_c19(hz::Ctx &ctx) {
   }
   for (int sp = 1; sp <= 2; sp++) for (int mode = 0; mode < 2; mode++) { C19Case c; c.special = sp; c.mode = mode; if (!ctx.take()) continue; std::string id = ser19(c); if (!ctx.begin(id, sp == 1 ? "nonexistent path" : "directory")) continue; ctx.cls("part:missing"); ctx.nontrivial(id); FV v = check19(c); if (!v.ok) ctx.fail(fail19(c, v)); }
   for (int k = 0; k < 6; k++) for (int mode = 0; mode < 2; mode++) for (int ch : {0, 16, 17}) { C19Case c; c.special = 4; c.start = k; c.mode = mode; c.chunk = ch; if (!ctx.take()) continue; std::string id = ser19(c); if (!ctx.begin(id, ODD[k])) continue; ctx.cls("part:odd-files"); ctx.nontrivial(id); FV v = check19(c); if (ctx.want_sample()) ctx.put_sample(std::string(ODD[k]) + " -> " + (v.ok ? "returned" : v.detail)); if (!v.ok) ctx.fail(fail19(c, v)); }
-  for (int k = 0; k < 4; k++) { C19Case c; c.special = 7; c.start = k; if (!ctx.take()) continue; std::string id = ser19(c); if (!ctx.begin(id, "bin file onto a refusing target")) continue; ctx.cls("part:bin-file-onto-refusing-target"); ctx.nontrivial(id); FV v = check19(c); if (ctx.want_sample()) ctx.put_sample(std::string(k / 2 % 2 == 0 ? "asm_create_bin_file(\"/dev/full\")" : "asm_create_bin_file under RLIMIT_FSIZE") + (k % 2 ? ", 20000 bytes" : ", 100 bytes") + " -> " + (v.ok ? "EXIT_FAILURE, or every byte in the file" : v.detail)); if (!v.ok) ctx.fail(fail19(c, v)); }
-  for (int mode = 0; mode < 2; mode++) for (int credv = 0; credv < 3; credv++) { C19Case c; c.special = 6; c.mode = mode; c.start = credv; if (!ctx.take()) continue; std::string id = ser19(c); if (!ctx.begin(id, "unprivileged reader, file of another owner")) continue; ctx.cls("part:unprivileged-reader"); ctx.nontrivial(id); FV v = check19(c); if (ctx.want_sample()) ctx.put_sample(std::string("a process without privileges reads a world-readable file owned by root -> ") + (v.ok ? "same as the string call" : v.detail)); if (!v.ok) ctx.fail(fail19(c, v)); }
+  for (int k = 0; k < 6; k++) { C19Case c; c.special = 7; c.start = k; if (!ctx.take()) continue; std::string id = ser19(c); if (!ctx.begin(id, "bin file onto a refusing target")) continue; ctx.cls("part:bin-file-onto-refusing-target"); ctx.nontrivial(id); FV v = check19(c); if (ctx.want_sample()) ctx.put_sample(std::string(k >= 4 ? "asm_create_bin_file onto an existing write-only file, as an unprivileged user" : k / 2 % 2 == 0 ? "asm_create_bin_file(\"/dev/full\")" : "asm_create_bin_file under RLIMIT_FSIZE") + (k % 2 ? ", 20000 bytes" : ", 100 bytes") + " -> " + (v.ok ? "EXIT_FAILURE, or every byte in the file" : v.detail)); if (!v.ok) ctx.fail(fail19(c, v)); }
+  for (int mode = 0; mode < 2; mode++) for (int credv = 0; credv < 4; credv++) { C19Case c; c.special = 6; c.mode = mode; c.start = credv; if (!ctx.take()) continue; std::string id = ser19(c); if (!ctx.begin(id, "unprivileged reader, file of another owner")) continue; ctx.cls("part:unprivileged-reader"); ctx.nontrivial(id); FV v = check19(c); if (ctx.want_sample()) ctx.put_sample(std::string("a process without privileges reads a world-readable file owned by root -> ") + (v.ok ? "same as the string call" : v.detail)); if (!v.ok) ctx.fail(fail19(c, v)); }
   for (int mode = 0; mode < 2; mode++) { C19Case c; c.special = 5; c.mode = mode; if (!ctx.take()) continue; std::string id = ser19(c); if (!ctx.begin(id, "120 failing attempts, then a readable file")) continue; ctx.cls("part:many-failing-attempts"); ctx.nontrivial(id); FV v = check19(c); if (ctx.want_sample()) ctx.put_sample(std::string("120 failing file attempts with few descriptors left, then a readable file -> ") + (v.ok ? "assembles like its contents" : v.detail)); if (!v.ok) ctx.fail(fail19(c, v)); }
   // rapidcheck: arbitrary sizes up to several pages
   auto gen_case = rc::gen::apply([&](int size, int seed, int combo, int mode, int chunk, bool nl, bool crlf, bool failing, int start) { hz::Rng rr((uint64_t)seed); C19Case c; c.content = sized_content(P, rr, (size_t)size, failing, nl, crlf); c.combo = combo; c.mode = mode; c.chunk = chunk - 3; c.start = start; c.special = (seed & 3) == 0 ? 3 : 0;
@@ -274,11 +283,11 @@ static FI run17(const Pool &P, const C17Case &c) {
     case 0: case 1: break;
     case 2: if (fit) asm_set_chunk_size(a, fit);
       hit = counting_main ? api("asm_assemble_string_counting_chunks(long)", [&] { std::vector<char> w(prog_long.begin(), prog_long.end()); w.push_back(0); int cc = 0; return asm_assemble_string_counting_chunks(a, w.data(), cchunk, &cc); }, rc)
-                          : api(fit ? "asm_assemble_str(long, chunk fitting)" : "asm_assemble_str(long)", [&] { return asm_assemble_str(a, prog_long.c_str()); }, rc); if (hit && rc != EXIT_FAILURE) { intact(""); asm_destroy_instance(a); return bad("fault-ignored", "growing the buffer failed (" + v.faulted + ") but the call returned " + std::to_string(rc)); } if (!hit && rc != 0) { asm_destroy_instance(a); return bad("harness", "long program failed without fault"); } break;
+                          : api(fit ? "asm_assemble_str(long, chunk fitting)" : "asm_assemble_str(long)", [&] { return asm_assemble_str(a, prog_long.c_str()); }, rc); if (hit && rc != EXIT_FAILURE && alw.failed_kind != ALW_MREMAP /* a library may get its memory another way: then the result is judged below */) { intact(""); asm_destroy_instance(a); return bad("fault-ignored", "growing the buffer failed (" + v.faulted + ") but the call returned " + std::to_string(rc)); } if (!hit && rc != 0) { asm_destroy_instance(a); return bad("harness", "long program failed without fault"); } break;
     case 3: case 6: if (fit) asm_set_chunk_size(a, fit);
       hit = counting_main ? api("asm_assemble_file_counting_chunks(long)", [&] { int cc = 0; return asm_assemble_file_counting_chunks(a, pth.data(), cchunk, &cc); }, rc) : api("asm_assemble_file", [&] { return asm_assemble_file(a, pth.data()); }, rc); if (hit && rc != EXIT_FAILURE) { asm_destroy_instance(a); return bad("fault-ignored", v.faulted + " failed but asm_assemble_file returned " + std::to_string(rc)); } if (!hit && rc != 0) { asm_destroy_instance(a); return bad("harness", "file program failed without fault"); } break;
     case 9: { int far = off1 + 13000 + (int)(c.seed % 7) * 6007; asm_set_offset(a, far);
-      hit = api("asm_assemble_str(at a far offset)", [&] { return asm_assemble_str(a, prog_small.c_str()); }, rc); if (hit && rc != EXIT_FAILURE) { intact(""); asm_destroy_instance(a); return bad("fault-ignored", "growing the buffer failed (" + v.faulted + ") but the call returned " + std::to_string(rc)); } if (!hit && rc != 0) { asm_destroy_instance(a); return bad("harness", "assembly at a far offset failed without fault"); }
+      hit = api("asm_assemble_str(at a far offset)", [&] { return asm_assemble_str(a, prog_small.c_str()); }, rc); if (hit && rc != EXIT_FAILURE && alw.failed_kind != ALW_MREMAP /* a library may get its memory another way: then the result is judged below */) { intact(""); asm_destroy_instance(a); return bad("fault-ignored", "growing the buffer failed (" + v.faulted + ") but the call returned " + std::to_string(rc)); } if (!hit && rc != 0) { asm_destroy_instance(a); return bad("harness", "assembly at a far offset failed without fault"); }
       if (rc != 0) asm_set_offset(a, off1);   /* back to the end of the earlier code for the steps below */ else asm_set_offset(a, off1);
       break; }
     case 7: hit = api("asm_assemble_file(empty)", [&] { return (c.seed & 1) ? assemble_file(a, pth.data()) : asm_assemble_file(a, pth.data()); }, rc); if (hit && rc != EXIT_FAILURE) { asm_destroy_instance(a); return bad("fault-ignored", v.faulted + " failed but asm_assemble_file returned " + std::to_string(rc)); } if (!hit && rc != 0) { asm_destroy_instance(a); return bad("harness", "empty file failed without fault"); } break;
